@@ -391,6 +391,51 @@ def same_object_edited_between(ctx, rng):
                               f"again; the token says {member}={seen!r} but does not decrypt with it: {d.exc!r}", {**case, "token": tok})
 
 
+def unusual_rsa_roundtrip(ctx, rng):
+    """RSA keys as other tools make them (moduli of 2047, 2049, 2050 bits, e = 3 / 17 / 2^32+1), imported as JWK and as PEM: RSA1_5, RSA-OAEP and
+    RSA-OAEP-256 round trips, alone and beside another recipient"""
+    from ..keystrata import UNUSUAL_RSA
+    j = J.load()
+    pt = b"c04 unusual rsa"
+    other = gen.new_oct(128)
+    for kind in UNUSUAL_RSA:
+        bits = int(kind.split(":")[1].split("e")[0])
+        if bits < 2048:
+            continue      # the RSA key encryption algorithms want 2048 bits or more
+        jwk = gen.new_rsa_unusual(kind.split(":")[1])
+        for rep in ("jwk", "pem"):
+            priv = j.key(jwk) if rep == "jwk" else j.RSAKey.import_key(gen.to_pem(jwk))
+            pub = j.key(gen.public_jwk(jwk)) if rep == "jwk" else j.RSAKey.import_key(gen.to_pem(jwk, private=False))
+            for a in ("RSA1_5", "RSA-OAEP", "RSA-OAEP-256"):
+                for form in ("compact", "general2"):
+                    ctx.ev()
+                    allow = [a, "A128KW", "A128GCM"]
+                    if form == "compact":
+                        o = call(j.jwe.encrypt_compact, {"alg": a, "enc": "A128GCM"}, pt, pub, algorithms=allow)
+                    else:
+                        def f():
+                            obj = j.jwe.GeneralJSONEncryption({"enc": "A128GCM"}, pt)
+                            obj.add_recipient({"alg": a, "kid": "rsa"}, pub)
+                            obj.add_recipient({"alg": "A128KW", "kid": "oct"}, j.key(other))
+                            return j.jwe.encrypt_json(obj, None, algorithms=allow)
+                        o = call(f)
+                    ctx.count("produced")
+                    ctx.count("unusual_rsa_roundtrips")
+                    ctx.nontrivial(("unusual-rsa", kind, rep, a, form))
+                    ctx.cell("unusual-rsa", kind, a)
+                    case = {"unusual_rsa": True, "kind": kind, "rep": rep, "alg": a, "form": form}
+                    if not o.ok:
+                        ctx.violation(f"encrypt-fails:{o.key}", f"{a} with an RSA key {kind} ({rep}): {o.exc!r}", case)
+                        continue
+                    if form == "compact":
+                        d = call(j.jwe.decrypt_compact, o.value, priv, algorithms=allow)
+                    else:
+                        d = call(j.jwe.decrypt_json, copy.deepcopy(o.value), priv, registry=j.jwe.JWERegistry(algorithms=allow, verify_all_recipients=False))
+                    ctx.count("decrypted")
+                    if not d.ok or d.value.plaintext != pt:
+                        ctx.violation(f"roundtrip-fails:{d.key}", f"{a} token encrypted to an RSA key {kind} ({rep}, {form}) does not decrypt with it: {d.exc!r}", {**case, "token": o.value})
+
+
 def forbidden_cells(ctx, rng):
     """combinations the specifications forbid must be refused at encryption time"""
     j = J.load()
@@ -497,6 +542,12 @@ def run_shard(ctx):
         shared_recipient_header(ctx, rng)
     if ctx.shard == 6:
         same_object_edited_between(ctx, rng)
+    if ctx.shard == 7:
+        unusual_rsa_roundtrip(ctx, rng)
+    if ctx.shard >= 8:
+        # plaintext lengths around the multiples of usual buffer sizes (the sweep of C17, judged here as a round trip)
+        from .c17 import step_boundaries
+        step_boundaries(ctx, type("NoProxy", (), {"proxy": type("P", (), {"reset": staticmethod(lambda: None)})()})(), rng)
     fc = forced(ctx.tier)
     for idx, kw in enumerate(fc):
         if idx % ctx.nshards != ctx.shard:
